@@ -2,8 +2,8 @@ import Proofs.WritersBase
 /-! Invariants about events: the wake-up token (`_write_event`), the waiter queue, and who owns which event. -/
 namespace Model.Writers
 
-/-- program counter of the lock holder, if any -/
-def State.lockPc (s : State) : Option Pc := s.lock.map fun u => (s.loc u).pc
+/-- the lock is held, and its holder is at program point `p` -/
+def State.lockAt (s : State) (p : Pc) : Prop := s.lock ≠ none ∧ ∀ u, s.lock = some u → (s.loc u).pc = p
 
 structure InvEv (s : State) : Prop where
   /-- an event held in a local variable exists and was created by that thread -/
@@ -17,7 +17,7 @@ structure InvEv (s : State) : Prop where
   /-- the token belongs to exactly one thread, which is on its way to admission -/
   tok : ∀ e, s.writeEvent = some e → e < s.nextEv ∧ (s.loc (s.owner e)).ev = some e ∧ tokenPc (s.loc (s.owner e)).pc = true ∧
         e ∉ s.waiters ∧
-        (e ∈ s.evSet ∨ ((s.loc (s.owner e)).pc = .wWait ∧ s.lockPc = some .eSet)) ∧
+        (e ∈ s.evSet ∨ ((s.loc (s.owner e)).pc = .wWait ∧ s.lockAt .eSet)) ∧
         (s.writeTxn = none ∨ (s.loc (s.owner e)).pc = .wClrEv)
   app : ∀ t, (s.loc t).pc = .wAppend → (s.loc t).ev ≠ none ∧
         ∀ e, (s.loc t).ev = some e → e ∉ s.waiters ∧ s.writeEvent ≠ some e ∧ e ∉ s.evSet
@@ -32,7 +32,7 @@ structure InvEv (s : State) : Prop where
   pop : ∀ t, (s.loc t).pc = .ePop → s.waiters ≠ [] ∧ s.writeTxn = none ∧ s.writeEvent = none
   testW : ∀ t, (s.loc t).pc = .eTestW → s.writeTxn = none ∧ s.writeEvent = none
   /-- a non-empty queue is never orphaned: somebody is bound to pop it -/
-  orphan : s.waiters ≠ [] → s.writeTxn ≠ none ∨ s.writeEvent ≠ none ∨ s.lockPc = some .eTestW ∨ s.lockPc = some .ePop
+  orphan : s.waiters ≠ [] → s.writeTxn ≠ none ∨ s.writeEvent ≠ none ∨ s.lockAt .eTestW ∨ s.lockAt .ePop
 
 theorem invEv_init : InvEv init := by
   constructor <;> simp [init]
